@@ -337,6 +337,9 @@ def verify_function(key, prop_prefix="", replayer=None, only_labels=None, engine
     except Unsupported as e:
         return [Result("%s%s" % (prop_prefix, short), UNDECIDED, function=key, output="unsupported: %s" % e,
                        detail="function lookup / setup")], None
+    except Exception as e:
+        return [Result("%s%s" % (prop_prefix, short), ERROR, function=key, output="cannot read the source of %s: %r" % (key, e),
+                       detail="function lookup / setup")], None
     try:
         st, env = initial_state(E)
         E.penv0 = env
